@@ -200,12 +200,21 @@ P["C10"] = dict(
     technique="Lean 4 theorems (scanner = positional denotation, digit-wise Cmp = value comparison) + bounded-exhaustive differential")
 
 P["C11"] = dict(
-    lean_targets=["JSight.Props.C11"],
+    lean_targets=["JSight.Props.C11", "JSight.Tie.SyncPool", "JSight.Tie.SyncRanges", "JSight.Tie.SyncGlobals", "JSight.Tie.SyncHealth"],
+    tgen=[{"cmd": ["tgen-sync", "{LEAN}/JSight/Generated/SyncFacts.lean"]}],
     obligations=ob("JSight.Props.C11",
         ("Props.C11.C11_once_stable", "a once-wrapped computation returns its first result forever"),
         ("Props.C11.C11_handed_out_stable", "a slice handed out by Example keeps its content under all later Example calls (copy-out)"),
         ("Props.C11.C11_pinned_overwrites", "regression witness: the pooled-buffer variant is overwritten by the second call"),
-        ("Props.C11.C11_leaf_order_free", "validator verdict independent of the order of alternatives (map iteration over leaves)")),
+        ("Props.C11.C11_leaf_order_free", "validator verdict independent of the order of alternatives (map iteration over leaves)")) + ob("JSight.Tie.SyncPool",
+        ("Gen.C11_no_pooled_alias_returned", "no function reachable from the API returns memory of an object it puts back into a sync.Pool (regenerated table: the code is Heap.example, not examplePinned)"),
+        ("Gen.C11_no_pooled_alias_returned_nonempty", "the example builder (object, array) and the loader are in the pool table"),
+        ("Gen.C11_dead_aliasers_reviewed", "the only functions that still return pooled memory are the reviewed dead buildExample* family")) + ob("JSight.Tie.SyncRanges",
+        ("Gen.C11_map_ranges_reviewed", "every range over a Go map in the library is order-free by construction (keyed stores / counters / sorted before use) or a reviewed site (regenerated inventory)"),
+        ("Gen.C11_map_ranges_reviewed_nonempty", "the inventory sees the checker, loader and validator packages")) + ob("JSight.Tie.SyncGlobals",
+        ("Gen.C12_no_global_state", "no function outside init stores into a package-level variable"),
+        ("Gen.C12_no_global_state_nonempty", "the inventory looked at the package-level variables")) + ob("JSight.Tie.SyncHealth",
+        ("Gen.Sync_source_type_checked", "the extractor type-checked the library from source without an error")),
     runs=[{"cmd": ["c11-history"]}],
     partial="memo/pool/aliasing and the leaf-order lemma are theorems; Go's runtime map order, GC and real API histories are exercised, not modelled",
     level_text="Proof (partial): the logic parts are theorems on protocol models — once-cells return the first result forever, values handed out by Example never change (copy-out), the validator's verdict does not depend on the iteration order over its leaves. Search: histories of up to 12 public operations over a pool of schemas/documents/enums/regexes vs fresh objects, retained values re-read at the end, the whole comparison across processes (map order).",
@@ -213,10 +222,21 @@ P["C11"] = dict(
     technique="Lean 4 theorems on memo/pool/permutation models + history exploration against fresh objects")
 
 P["C12"] = dict(
-    lean_targets=["JSight.Props.C12"],
+    lean_targets=["JSight.Props.C12", "JSight.Tie.SyncOnce", "JSight.Tie.SyncPool", "JSight.Tie.SyncLocks", "JSight.Tie.SyncGlobals", "JSight.Tie.SyncHealth"],
+    tgen=[{"cmd": ["tgen-sync", "{LEAN}/JSight/Generated/SyncFacts.lean"]}],
     obligations=ob("JSight.Props.C12", ("Props.C12.C12_once_exactly_once", "under every schedule the compile function starts at most once and all returned values agree"),
         ("Props.C12.C12_pool_result_is_own", "concurrent Example() over the shared buffer pool: under every schedule every goroutine's result is its own text"),
-        ("Props.C12.C12_pool_pinned_overwritten", "handing out the pooled buffer itself fails under a concrete schedule")),
+        ("Props.C12.C12_pool_pinned_overwritten", "handing out the pooled buffer itself fails under a concrete schedule")) + ob("JSight.Tie.SyncOnce",
+        ("Gen.C12_every_lazy_read_guarded", "every read of a lazily computed field (inner, astNode, usedUserTypes, values, pattern, err, value) is dominated by a completed Do of its once cell on the same object, in every exported method and the helpers it calls (regenerated table: every reader goes through Once.run)"),
+        ("Gen.C12_every_lazy_read_guarded_nonempty", "the table has a guarded row for every method C12 names, the expected number of once cells per type, and every cell is used"),
+        ("Gen.C12_no_write_outside_once", "outside the set-up phase no exported method stores into the object outside a once function"),
+        ("Gen.C12_no_write_outside_once_nonempty", "the write table covers the methods C12 names"),
+        ("Gen.C12_once_wrappers_sound", "ErrOnce / ErrOnceWithValue hand their function to the inner sync.Once only"),
+        ("Gen.C12_no_other_mutex", "no library type other than the generated ordered maps carries a mutex")) + ob("JSight.Tie.SyncPool",
+        ("Gen.C11_no_pooled_alias_returned", "no function reachable from the API returns memory of an object it puts back into a sync.Pool (the copy-out step of PoolRace)")) + ob("JSight.Tie.SyncLocks",
+        ("Gen.C19_lock_bracketing", "every method of the ordered maps (incl. the constraint map) holds the mutex for its whole body, writers exclusively")) + ob("JSight.Tie.SyncGlobals",
+        ("Gen.C12_no_global_state", "no function outside init stores into a package-level variable")) + ob("JSight.Tie.SyncHealth",
+        ("Gen.Sync_source_type_checked", "the extractor type-checked the library from source without an error")),
     runs=[{"cmd": ["c12-concurrent"], "race": True}],
     partial="the protocol (first use compiles once, all see the same result) is a theorem over all schedules; data-race freedom and equality with the sequential run under the real Go memory model are exercised under the race detector",
     level_text="Proof (partial): a small-step model of n goroutines racing to one sync.Once cell under an arbitrary schedule — the compile function is started at most once and every goroutine that returned got the same value (theorem, all schedules, any n); and a small-step model of any number of goroutines running Example() over the shared buffer pool (get / write / copy out / put, interleaved arbitrarily): every result is the goroutine's own text (theorem, all schedules). Runtime part: 2..32 goroutines with random operation mixes on shared and private schemas under the race detector, results compared with the sequential oracle.",
@@ -332,13 +352,17 @@ P["C18"] = dict(
     technique="Lean 4 theorems (token extraction, quote round trip) + exploration of named vs inline forms")
 
 P["C19"] = dict(
-    lean_targets=["JSight.Props.C19"],
+    lean_targets=["JSight.Props.C19", "JSight.Tie.SyncLocks", "JSight.Tie.SyncHealth"],
+    tgen=[{"cmd": ["tgen-sync", "{LEAN}/JSight/Generated/SyncFacts.lean"]}],
     obligations=ob("JSight.Props.C19",
         ("Props.C19.C19_refines", "every operation sequence: invariant holds, state and every observation equal the reference insertion-ordered list"),
         ("Props.C19.C19_len", "Len = number of iterated keys"),
         ("Props.C19.C19_delete_absent", "deleting an absent key changes nothing"),
         ("Props.C19.C19_filter", "Filter visits every entry exactly once in order"),
-        ("Props.C19.C19_pinned_false", "regression witness: the pre-fix delete breaks Len = iterated keys")),
+        ("Props.C19.C19_pinned_false", "regression witness: the pre-fix delete breaks Len = iterated keys")) + ob("JSight.Tie.SyncLocks",
+        ("Gen.C19_lock_bracketing", "every exported method of the three generated maps and of the generator template takes mx.Lock / RLock first, releases it by defer, stores into data / order only under the write lock, iterates the order slice, calls callbacks under its lock (regenerated table: methods are atomic steps)"),
+        ("Gen.C19_lock_bracketing_nonempty", "the generated containers are exactly the three ordered maps with the thirteen methods, and each generated file has the template's facts")) + ob("JSight.Tie.SyncHealth",
+        ("Gen.Sync_source_type_checked", "the extractor type-checked the library from source without an error")),
     runs=[{"cmd": ["c19-omap"]}, {"cmd": ["c19-omap-race"], "race": True}],
     level_text="Proof: the generated ordered map (Go map + order slice, as coded with the delete/Filter fix) refines an insertion-ordered association list for every sequence of Set/Update/Delete/Filter/Map/Find/Each/Get/Has/Len with arbitrary keys, values, predicates and functions (theorem by induction over the sequence). Tie: all operation sequences up to length 4/6 over 3 keys, 2 values, 4 predicates on all three generated types (public ASTNodes, RuleASTNodes, internal Constraints via hook) against the Lean model and a reference list; random sequences to length 200.",
     level_note="Trusted: Lean kernel; Go map semantics modelled as a finite partial function; mutex atomicity and data-race freedom are exercised under the race detector, not modelled.",
